@@ -17,7 +17,7 @@ ENV = dict(os.environ, GOFLAGS="-mod=mod", GOPROXY="off", GOSUMDB="off", GOTOOLC
 def run(cmd, cwd, timeout=1800):
     t0 = time.time()
     try:
-        p = subprocess.run(cmd, cwd=cwd, env=ENV, shell=isinstance(cmd, str), capture_output=True, text=True, timeout=timeout)
+        p = subprocess.run(cmd, cwd=cwd, env=ENV, shell=isinstance(cmd, str), capture_output=True, text=True, errors="replace", timeout=timeout)
         return p.returncode, p.stdout + p.stderr, time.time() - t0
     except subprocess.TimeoutExpired as e:
         return 124, (e.stdout or "") + "\nTIMEOUT", time.time() - t0
@@ -72,7 +72,7 @@ def main():
                     continue
                 t0 = time.time()
                 try:
-                    p = subprocess.run(["./check", c, "quick"], cwd="/verif", env=env2, capture_output=True, text=True, timeout=3000)
+                    p = subprocess.run(["./check", c, "quick"], cwd="/verif", env=env2, capture_output=True, text=True, errors="replace", timeout=3000)
                     rc, o = p.returncode, p.stdout + p.stderr
                 except subprocess.TimeoutExpired as e:
                     rc, o = 124, (e.stdout or "") + "TIMEOUT"
